@@ -10,10 +10,15 @@
   the workflow. Stated with `firstDefined` over explicit ranked source lists —
   no flattening, no merging. After load, variables written at run time
   (SetRuntimeVar & co.) are user vars of the role they were written on: they are
-  visible exactly in that role's subtree (`writesOk`).
+  visible exactly in that role's subtree (`writesOk`). What the ENVIRONMENT publishes
+  on its own transitions obeys the same rule with a documented kind per key
+  (`docKind`): values copied from the configuration store are VARS of the root
+  role, so a value the user supplied for the same key keeps winning at every role at
+  every moment (`envOk`).
 -/
 import ControlModel.Model.Vars
 import ControlModel.Model.VarsTree
+import ControlModel.Model.VarsEnv
 
 namespace Vars
 
@@ -68,6 +73,89 @@ def tmplOrderIrrelevant (keys : List String) (r : RoleIn) : Bool :=
 def writesOk (keys : List String) (t : Forest) (ws : List Write) (env : Path) (tmpl : Option (KV × KV))
     (obs : List RoleObs) : Bool :=
   caseOk keys (rolesReplayed t ws env tmpl) obs
+
+/-! ## what the environment itself writes -/
+
+/-- The documented kind of every key the environment publishes. Generated at run time and meant to
+    override whatever is there (state entry time, the four run time stamps, the result of a task, who asked
+    last, the environment's id): user kind. The run number, the last run number, the FairMQ cleanup counter
+    and every COPY OF A CONFIGURATION-STORE VALUE (lhc_period, pdp_n_hbf_per_tf): vars — they must stay
+    below anything the user supplied. `detectors`: a default. -/
+def docKind : String → Option MapKind
+  | "run_number" => some .vars
+  | "runNumber" => some .vars
+  | "last_run_number" => some .vars
+  | "lhc_period" => some .vars
+  | "pdp_n_hbf_per_tf" => some .vars
+  | "__fmq_cleanup_count" => some .vars
+  | "detectors" => some .defaults
+  | "enter_state_time_ms" => some .user
+  | "run_start_time_ms" => some .user
+  | "run_start_completion_time_ms" => some .user
+  | "run_end_time_ms" => some .user
+  | "run_end_completion_time_ms" => some .user
+  | "last_request_user" => some .user
+  | "environment_id" => some .user
+  | "taskResult.exitCode" => some .user
+  | "taskResult.stdout" => some .user
+  | "taskResult.stderr" => some .user
+  | "taskResult.finalStatus" => some .user
+  | "taskResult.timestamp" => some .user
+  | _ => none
+
+/-- The user-kind keys among those the environment writes on the root role or on itself: the run-time
+    values that by design replace what was there. For every OTHER key a transition of the environment must
+    leave the user-var hierarchy of every role alone. -/
+def runtimeUserKeys : List String :=
+  ["enter_state_time_ms", "run_start_time_ms", "run_start_completion_time_ms", "run_end_time_ms",
+   "run_end_completion_time_ms", "last_request_user", "environment_id"]
+
+/-- The environment's writes as DOCUMENTED: the same rows (where, when, which key, which value), each
+    on the kind of map `docKind` names for its key. -/
+def docTable : List EnvWrite :=
+  envWriteTable.map fun w => match docKind w.key with
+    | some k => { w with kind := k }
+    | none => w
+
+/-- One moment of an environment's life as the harness records it. -/
+structure SnapObs where
+  state : String
+  res : String
+  roles : List RoleObs
+  deriving Repr, Inhabited, DecidableEq
+
+/-- At every moment every role shows what the precedence rule demands of its chain — the role, its
+    ancestors up to the root, the environment-wide maps — where the environment's own writes are
+    writes of the documented kind. -/
+def snapsOk (keys : List String) (tmpl : Option (KV × KV)) : List (EnvSt × String) → List SnapObs → Bool
+  | [], [] => true
+  | (s, _) :: ss, o :: os => caseOk keys (s.roles tmpl) o.roles && snapsOk keys tmpl ss os
+  | _, _ => false
+
+def Item.key? : Item → Option String
+  | .write w => some w.op.key
+  | .trans _ _ => none
+
+/-- Keys the user supplied at creation that are neither run-time values of the environment nor written by
+    a role / call / plugin during the run: nothing that happens may change what they resolve to. -/
+def stableKeys (u : KV) (items : List Item) : List String :=
+  (u.map (·.1)).filter fun k => !runtimeUserKeys.contains k && !(items.any fun i => i.key? == some k)
+
+def sameAt (k : String) : List RoleObs → List RoleObs → Bool
+  | [], [] => true
+  | a :: as, b :: bs => (lookup a.stack k == lookup b.stack k) && (lookup a.stack k).isSome && sameAt k as bs
+  | _, _ => false
+
+/-- A USER-SUPPLIED VALUE IS NEVER DISPLACED BY THE ENVIRONMENT: at every role, at every moment, such a
+    key resolves to what it resolved to right after the load (a user-kind value, by the rule). -/
+def userStable (u : KV) (items : List Item) : List SnapObs → Bool
+  | [] => true
+  | o0 :: os => (stableKeys u items).all fun k => (o0 :: os).all fun o => sameAt k o0.roles o.roles
+
+/-- Spec on a whole run of an environment. -/
+def envOk (keys : List String) (sd sv u : KV) (t : Forest) (items : List Item) (tmpl : Option (KV × KV))
+    (obs : List SnapObs) : Bool :=
+  snapsOk keys tmpl (snapshots docTable sd sv u t items) obs && userStable u items obs
 
 /-- The probed keys stay clear of the six task-special names. -/
 def keysClear (keys : List String) : Bool := keys.all fun k => !specialKeys.contains k
